@@ -19,10 +19,10 @@ from lib import clist, cstr, cbool
 N = {"quick": 110, "thorough": 1500}
 
 # guard components of Model/PolarsExec.v (cause_bit in Model/PolarsExecCases.v)
-CAUSES = [(256, "vocab"), (512, "reserved_name"), (1024, "cmp_null"), (2048, "logic_null"), (8192, "null_join_key"),
-          (16384, "join_key_names"), (32768, "join_key_repr"), (65536, "sort_nulls"), (131072, "empty_project"), (262144, "sort_ties"), (524288, "group_key_repr")]
+CAUSES = [(256, "vocab"), (512, "reserved_name"), (1024, "cmp_null"), (2048, "logic_null"),
+          (16384, "join_no_keys"), (65536, "sort_nulls"), (131072, "empty_project"), (262144, "sort_ties"), (524288, "group_key_repr")]
 # causes that describe a documented difference (known finding or accepted convention); the others only bound the theorem
-EXPLAINING = ["sort_ties", "cmp_null", "logic_null", "null_join_key", "sort_nulls", "empty_project", "reserved_name"]
+EXPLAINING = ["sort_ties", "cmp_null", "logic_null", "sort_nulls", "empty_project", "reserved_name"]
 # "sum/count over groups with no non-null values": accepted by the property text itself; ties under a limit / an ordered window:
 # which rows are kept is not determined by the pipeline (DESIGN 3.3), the two sort routines may break ties differently
 ACCEPTED = {"empty_project", "sort_ties"}
@@ -61,7 +61,7 @@ def cop(node):
         return "(OProject %s %s %s)" % (src[0], ops, sl(node.group_by))
     if name == "SelectRowsNode":
         return "(OSelectRows %s %s)" % (src[0], cexpr(node.expr))
-    if name == "NaturalJoinNode" and node.jointype not in ("INNER", "LEFT", "RIGHT", "FULL"):
+    if name == "NaturalJoinNode" and node.jointype not in ("INNER", "LEFT", "RIGHT", "FULL") and not (node.jointype == "CROSS" and not node.on_a):
         raise semconv.Unsupported("join type " + node.jointype)
     return _cop_rest(node, src)
 
@@ -80,7 +80,7 @@ def _cop_rest(node, src):
         lim = "None" if node.limit is None else "(Some %d%%nat)" % node.limit
         return "(OOrder %s %s %s %s)" % (src[0], sl(node.order_columns), sl(node.reverse), lim)
     if name == "NaturalJoinNode":
-        jt = {"INNER": "JInner", "LEFT": "JLeft", "RIGHT": "JRight", "FULL": "JFull"}[node.jointype]
+        jt = {"INNER": "JInner", "LEFT": "JLeft", "RIGHT": "JRight", "FULL": "JFull", "CROSS": "JInner"}[node.jointype]
         return "(OJoin %s %s %s %s %s)" % (src[0], src[1], sl(node.on_a), sl(node.on_b), jt)
     if name == "ConcatRowsNode":
         idc = "None" if node.id_column is None else "(Some %s)" % cstr(node.id_column)
@@ -203,7 +203,7 @@ def shaped_case(rng):
     d1 = table(rng, "d1", [("k", "int", [1, 2, 3]), ("a", "float", None), ("b", "int", None), ("s", "str", None)], null_rate=nr,
                nrows=0 if rng.random() < 0.1 else None)
     d2 = table(rng, "d2", [("k", "int", [1, 2, 3, 4]), ("a", "float", None), ("z", "float", None)], null_rate=nr)
-    kind = rng.choice(["join", "join", "join2", "joinnames", "join_fill", "join_fill", "ordered_fl", "ordered_fl", "concat", "project_empty", "project", "window", "shift", "logic", "cmp", "filter",
+    kind = rng.choice(["join", "join", "join2", "joinnames", "joinnames", "nokeys", "join_fill", "join_fill", "ordered_fl", "ordered_fl", "concat", "project_empty", "project", "window", "shift", "logic", "cmp", "filter",
                        "minmax", "ifelse", "nulltests", "strings", "arith", "order", "reserved", "count"])
     num = lambda: rng.choice(["a", "b", "a", "k"])
     cmpop = lambda: rng.choice(["<", "<=", ">", ">=", "==", "!="])
@@ -217,9 +217,17 @@ def shaped_case(rng):
         if "a" in s["on"] and "a" not in s["b"]["columns"]:
             s["on"] = ["k"]
     elif kind == "joinnames":
-        b = {"op": "rename_columns", "src": {"op": "select_columns", "src": T2, "columns": ["k", "z"]}, "map": {"j": "k"}}
+        if rng.random() < 0.5:
+            b = {"op": "rename_columns", "src": {"op": "select_columns", "src": T2, "columns": ["k", "z"]}, "map": {"j": "k"}}
+        else:       # overlap: the left key name k is also a non-key column of the right side
+            b = {"op": "rename_columns", "src": {"op": "select_columns", "src": T2, "columns": ["k", "a", "z"]}, "map": {"j": "k", "k": "a"}}
         s = {"op": "natural_join", "src": {"op": "select_columns", "src": T1, "columns": ["k", "a", "uid"]}, "b": b, "on": [["k", "j"]],
              "jointype": rng.choice(["INNER", "LEFT", "RIGHT", "FULL"])}
+    elif kind == "nokeys":
+        # joins without keys (CROSS, and the other types with on=[]): the constant scratch key column
+        b = {"op": "select_columns", "src": T2, "columns": rng.choice([["z"], ["a", "z"], ["k", "z"]])}
+        s = {"op": "natural_join", "src": {"op": "select_columns", "src": T1, "columns": ["k", "a", "uid"]}, "b": b, "on": [],
+             "jointype": rng.choice(["CROSS", "CROSS", "INNER", "LEFT", "RIGHT", "FULL"])}
     elif kind == "join_fill":
         # every join type with a shared NON-KEY column that is null on matched left rows and non-null on the right (and the
         # other way round), non-null keys: the left-first fill-in of natural_join must happen for matched rows too
